@@ -43,6 +43,8 @@ class CleanSem(Sem):
 
     def atomic(self, st):
         cs = calls_in(st)
+        if self._is_cleanup(st) and isinstance(st, ast.Expr):
+            return True      # the fail-all routine does not raise provided C14-R2 (real exception) and C14-R3 (plain loop + clear) hold
         return bool(cs) and all((dotted(c.func) or "").startswith("logging.") for c in cs)
 
     def _is_cleanup(self, st):
